@@ -367,6 +367,43 @@ class SymReal(object):
         return False
 
 
+class SymArr(_np.ndarray):
+    """object array of SymReal whose COMPARISONS give concrete boolean arrays (one branch decision per element), as float
+    arrays do -- so that boolean-mask indexing and masked in-place assignment in the code under test (`r[r == 0] = eps')
+    run instead of dying on an object-dtype index.  Arithmetic stays element-wise on the proxies."""
+
+    def _cmpa(self, o, op):
+        a = _np.asarray(self, dtype=object)
+        ob = _np.broadcast_to(_np.asarray(o, dtype=object), a.shape) if not _np.isscalar(o) and not isinstance(o, SymReal) else None
+        out = _np.empty(a.shape, dtype=bool)
+        for idx in _np.ndindex(a.shape):
+            x = a[idx]
+            y = o if ob is None else ob[idx]
+            r = op(x, y)
+            out[idx] = bool(r)
+        return out
+
+    def __eq__(self, o):
+        return self._cmpa(o, lambda x, y: x == y)
+
+    def __ne__(self, o):
+        return self._cmpa(o, lambda x, y: x != y)
+
+    def __lt__(self, o):
+        return self._cmpa(o, lambda x, y: x < y)
+
+    def __le__(self, o):
+        return self._cmpa(o, lambda x, y: x <= y)
+
+    def __gt__(self, o):
+        return self._cmpa(o, lambda x, y: x > y)
+
+    def __ge__(self, o):
+        return self._cmpa(o, lambda x, y: x >= y)
+
+    __hash__ = None
+
+
 def sym(name):
     return SymReal(T.var(name))
 
